@@ -278,6 +278,24 @@ static bool sparse_extra(const std::vector<std::string>& t, const std::vector<st
     DB b, sol; b.init(n, 0, SENT_D); sol.init(n, POISON_VAL, SENT_D); for (int i = 0; i < n; i++) b[i] = rhs.at(i);
     mju_cholSolveBand(sol.p(), band.p(), b.p(), n, nb, nd); chk(sol); chk(b); chk(band);
     pvec("x", sol.p(), n); done(); return true; }
+  if (op == "boxqp") {
+    // boxqp <H> <g> <lo> <up> <x0> -> ret= x= index= kkt= (largest KKT violation of the returned point, own arithmetic)
+    auto M = mat_arg(t.at(1)); auto g = nums(t.at(2)), lo = nums(t.at(3)), up = nums(t.at(4)), x0 = nums(t.at(5)); int n = (int)M.size();
+    DB H, gb, lb, ub, res, R; IB idx;
+    H.init((size_t)n * n, 0, SENT_D); gb.init(n, 0, SENT_D); lb.init(n, 0, SENT_D); ub.init(n, 0, SENT_D); res.init(n, 0, SENT_D);
+    R.init((size_t)n * (n + 7), POISON_VAL, SENT_D); idx.init(n, -99, SENT_I);
+    for (int i = 0; i < n; i++) { gb[i] = g.at(i); lb[i] = lo.at(i); ub[i] = up.at(i); res[i] = x0.at(i); for (int j = 0; j < n; j++) H[i * n + j] = M[i].at(j); }
+    int ret = -99;
+    if (HX_TRY) { ret = mju_boxQP(res.p(), R.p(), idx.p(), H.p(), gb.p(), n, lb.p(), ub.p()); HX_END; } else { drv_err(hx_err); return true; }
+    chk(H); chk(gb); chk(lb); chk(ub); chk(res); chk(R); chk(idx);
+    double worst = 0;
+    for (int i = 0; i < n; i++) { double gr = gb[i]; for (int j = 0; j < n; j++) gr += M[i][j] * res[j];
+      double v = 0;
+      if (res[i] < lb[i] || res[i] > ub[i]) v = 1e9;
+      else if (res[i] == lb[i]) v = gr < 0 ? -gr : 0; else if (res[i] == ub[i]) v = gr > 0 ? gr : 0; else v = fabs(gr);
+      if (v > worst) worst = v; }
+    printf(" ret=%d", ret); pvec("x", res.p(), n); pivec("index", idx.p(), ret > 0 && ret <= n ? ret : 0); printf(" kkt="); pnum(worst);
+    done(); return true; }
   if (op == "lu") { auto M = mat_arg(t.at(1)); auto rhs = nums(t.at(2)); int n = (int)M.size();
     DB m; m.init((size_t)n * n, 0, SENT_D); for (int i = 0; i < n; i++) for (int j = 0; j < n; j++) m[i * n + j] = M[i].at(j);
     IB piv; piv.init(n, -99, SENT_I); int code = mju_factorLU(m.p(), n, piv.p()); chk(m); chk(piv);
